@@ -82,7 +82,12 @@ def parseBool : String → Option Bool
 
 /-! ### the scripted handlers (mirror of `c02Unary`, `c02Init`, `c02State` in harness/c02.go) -/
 
-def cellInt (c : Bytes) : Int := ((bytesToString c).toInt?).getD 0
+/-- a cell as the script integer it was built from: decimal text; the harness renders utf8 cells
+as `s<int>` (so that they never cast to a number), which is stripped here -/
+def cellInt (c : Bytes) : Int :=
+  let s := bytesToString c
+  let s := if s.startsWith "s" then s.drop 1 else s
+  (s.toInt?).getD 0
 
 def intCell (i : Int) : Bytes := asciiBytes (toString i)
 
@@ -177,6 +182,12 @@ def scriptCfg (methods : List MethodInfo) (pvOn : Bool) : Cfg :=
     pvGate := if pvOn then some admits else none,
     unary := scriptUnary,
     stream := scriptInit,
+    -- method `n1` takes an embedded ArrowSerializable payload; the script cell names its shape
+    -- and only cells >= 0 bind (see `c02Payload` in harness/c02.go)
+    bindFails := fun m cells =>
+      m == asciiBytes "n1" && (match cells with
+        | [c] => cellInt c < 0
+        | _ => true),
     -- int32 → int64 always casts; the harness' utf8 cells ("s<int>") never parse, so a utf8
     -- column casts only when it is empty
     canCast := fun f t b =>
